@@ -393,6 +393,9 @@ pub enum QuadContent {
     Rare { n: usize, background: u8, rare_symbol: u8, rare: u16, seed: u64 },
     /// symbol `s` only occurs after position `from`; before that the other three alternate
     After { n: usize, s: u8, from: usize, seed: u64 },
+    /// weighted i.i.d. symbols rearranged so that the sampled occurrences (number 8192*k + {-1,0,1})
+    /// of symbol `p & 3` land on or next to block / superblock borders (see `align_occurrences`)
+    Aligned { n: usize, w: [u16; 4], p: u16, seed: u64 },
 }
 
 impl QuadContent {
@@ -414,6 +417,16 @@ impl QuadContent {
                         0
                     })
                     .collect()
+            }
+            QuadContent::Aligned { n, w, p, seed } => {
+                let v = QuadContent::Weighted { n: *n, w: *w, seed: *seed }.expand();
+                let s = (*p & 3) as u8;
+                let (cls, oth): (Vec<u8>, Vec<u8>) = v.iter().partition(|&&x| x == s);
+                if cls.is_empty() {
+                    return v;
+                }
+                let mut r = Rng::new(*seed ^ 0xa11c);
+                crate::seqgen::align_occurrences(cls, oth, &mut r)
             }
             QuadContent::Runs { n, lg, seed } => {
                 let mut r = Rng::new(*seed);
@@ -505,8 +518,10 @@ pub fn recipe_quads(lo: usize, hi: usize) -> BoxedStrategy<QuadContent> {
         2 => (n.clone(), proptest::collection::vec(0u8..4, 1..9)).prop_map(|(n, period)| QuadContent::Periodic { n, period }),
         2 => (n.clone(), 0u8..4, 0u8..4, 0u16..40, any::<u64>())
             .prop_map(|(n, background, rare_symbol, rare, seed)| QuadContent::Rare { n, background, rare_symbol, rare, seed }),
-        2 => (n, 0u8..4, 0usize..20, any::<u64>())
+        2 => (n.clone(), 0u8..4, 0usize..20, any::<u64>())
             .prop_map(|(n, s, k, seed)| QuadContent::After { n, s, from: (k * 4096).min(n), seed }),
+        2 => (n, [0u16..1000, 0u16..1000, 0u16..1000, 0u16..1000], 0u16..4, any::<u64>())
+            .prop_map(|(n, w, p, seed)| QuadContent::Aligned { n, w, p, seed }),
     ]
     .boxed()
 }
